@@ -161,6 +161,8 @@ def substTy (σ : List (String × Ty)) : Ty → Ty
     | ts' => .union ts'
   | .annotated t anns => .annotated (substTy σ t) anns
   | .tupleLit ts => .tupleLit (substTys σ ts)
+  -- a struct type literal `{'a': T, 'b': List[T]}`: the VALUES are substituted (the keys are strings)
+  | .structLit names ts => .structLit names (substTys σ ts)
   -- a subscripted pane dataclass `Cls[T]` is re-subscripted with the replaced arguments
   | .cls n as => .cls n (substTys σ as)
   | t => t
@@ -177,6 +179,7 @@ partial def freeVars : Ty → List String
   | .mapping _ as => dedupS (as.flatMap freeVars)
   | .annotated t _ => freeVars t
   | .cls _ as => dedupS (as.flatMap freeVars)
+  | .structLit _ ts => dedupS (ts.flatMap freeVars)
   | _ => []
 
 /-! ## class processing -/
